@@ -158,9 +158,10 @@ def final_checks(w):
         eff = hs.truncate if trunc is None else trunc
         coef = (IM @ (T @ u)) if eff else (IM @ u)
         ref = bspline.BSplineFunc(kv_f, coef.reshape(nf))
-        grid = [np.sort(rng.uniform(0, 1, 3 + rng.randint(3))) for _ in range(dim)]
+        ps = cfg.get('pscale', 1.0)
+        grid = [np.sort(rng.uniform(0, 1, 3 + rng.randint(3))) * ps for _ in range(dim)]
         if rng.randint(2):
-            grid[0] = np.concatenate(([0.0], grid[0], [1.0]))
+            grid[0] = np.concatenate(([0.0], grid[0], [ps]))
         for d in range(dim):
             # points exactly ON mesh lines of some level (where the level-wise contributions change and
             # derivatives of low-degree splines jump; evaluation is right-continuous on every level)
@@ -182,7 +183,7 @@ def final_checks(w):
             ctx.check(a.shape == b.shape and np.abs(a - b).max(initial=0.0) <= 1e-9 * scale, 'hspline-' + nm,
                       lambda: 'truncate=%s: differs from the finest-level TP representation by %.3g' %
                       (trunc, np.abs(a - b).max() if a.shape == b.shape else -1), sig('eval', fn=nm))
-        pt = tuple(rng.uniform(0, 1, dim))
+        pt = tuple(rng.uniform(0, 1, dim) * ps)
         a = ctx.call('HSplineFunc.__call__', f, *pt)
         if a is RAISED():
             return
@@ -207,8 +208,9 @@ def final_checks(w):
             for trunc in (False, True):
                 f = hierarchical.HSplineFunc(hs, u, truncate=trunc)
                 fb = hierarchical.HSplineFunc(bh, u[idx], truncate=trunc)
-                grid = [np.sort(rng.uniform(0, 1, 4)) for _ in range(dim)]
-                grid[bd[0]] = np.array([0.0 if bd[1] == 0 else 1.0])
+                ps = cfg.get('pscale', 1.0)
+                grid = [np.sort(rng.uniform(0, 1, 4)) * ps for _ in range(dim)]
+                grid[bd[0]] = np.array([0.0 if bd[1] == 0 else ps])
                 a = ctx.call('trace.grid_eval', f.grid_eval, grid)
                 gb = [g for i, g in enumerate(grid) if i != bd[0]]
                 b = ctx.call('boundary.grid_eval', fb.grid_eval, gb)
